@@ -21,6 +21,83 @@ RULE = (
 )
 
 
+def use_sites(run, dts, acc_rows, classes) -> int:
+    """The table is a property of the CLASS: every way of writing an annotation of that class and every place where
+    it is used must give the cell's verdict.  Spellings: `Cls["n"]`, `Cls("n")`, `Cls[Shape[VariableAxis("n")]]`
+    (symbolic shape).  Use sites: the standalone `check`, a dltyped function (argument and return position), and one
+    array OBJECT passed for two parameters of different classes (the second position must still be judged by its own
+    class).  Reported as failing cells."""
+    import typing
+    import warnings
+
+    from common import import_repo
+
+    dltype = import_repo()
+    import jax
+    import numpy as np
+    import torch
+
+    base = {0: np.ndarray, 1: torch.Tensor, 2: jax.Array}
+    n = 0
+
+    def verdict(fn) -> str:
+        try:
+            fn()
+            return "accept"
+        except dltype.DLTypeDtypeError:
+            return "reject"
+        except Exception as e:  # noqa: BLE001
+            return "other " + type(e).__name__
+
+    with warnings.catch_warnings():
+        warnings.simplefilter("ignore")
+        for ci, c in enumerate(classes):
+            cls = getattr(dltype, c)
+            spell = {
+                'Cls["n"]': cls["n"],
+                'Cls("n")': cls("n"),
+                'Cls[Shape[VariableAxis("n")]]': cls[dltype.Shape[dltype.VariableAxis("n")]],
+            }
+            fns = {}
+            for lib, b in base.items():
+                T = typing.Annotated[b, cls["n"]]
+                A = typing.Annotated[b, dltype.TensorTypeBase["n"]]
+
+                def mk():
+                    # (annotations are attached as objects: this module postpones the evaluation of annotations)
+                    def arg(x):
+                        return None
+
+                    def ret(x):
+                        return x
+
+                    def twice(x, y):
+                        return None
+
+                    arg.__annotations__ = {"x": T, "return": type(None)}
+                    ret.__annotations__ = {"x": A, "return": T}
+                    twice.__annotations__ = {"x": A, "y": T, "return": type(None)}
+                    return tuple(dltype.dltyped()(f) for f in (arg, ret, twice))
+
+                fns[lib] = mk()
+            for j, (lib, nm, arr, cat) in enumerate(dts):
+                want = "accept" if acc_rows[ci][j] else "reject"
+                arg, ret, twice = fns[lib]
+                sites = {k: verdict(lambda a=a: a.check(arr)) for k, a in spell.items()}
+                sites["dltyped argument"] = verdict(lambda: arg(arr))
+                sites["dltyped return"] = verdict(lambda: ret(arr))
+                sites["same array object passed for a TensorTypeBase parameter and for this class"] = verdict(lambda: twice(arr, arr))
+                n += len(sites)
+                for k, got in sites.items():
+                    if got != want:
+                        line = f"SITE\t{c}\t{lib}:{nm}\t{k}"
+                        run.findings.append(Finding("failing-input", f"{c} / {['numpy', 'torch', 'jax'][lib]} dtype {nm}: the table cell (Cls[\"...\"].check) says {want}, but through `{k}` the verdict is {got}",
+                                                    Case(line, "site"), got, "", want))
+    run.n_cases += n
+    run.dist["use-sites"] += n
+    return n
+
+
 def custom(run, tier):
     import translate
 
@@ -42,6 +119,8 @@ def custom(run, tier):
             if n % 331 == 0 and len(run.samples) < 10:
                 run.samples.append({"cell": line, "accepted": got, "documented": exp})
             n += 1
+    n_sites = use_sites(run, dts, acc_rows, translate.CLASSES)
+    run.coverage["use_site_cells"] = n_sites
     run.coverage["exhaustive"] = True
     run.coverage["classes"] = len(translate.CLASSES)
     run.coverage["dtypes_by_library"] = {k: sum(1 for d in dts if d[0] == i) for i, k in enumerate(["numpy", "torch", "jax"])}
